@@ -267,7 +267,9 @@ Definition m_update_missing (o other : jptr) : M bool :=
 
 (* json_unpack(o, "{s:s}", key, &z) / "{s?s}": z is a pointer INTO the string node, so the
    model keeps the node's reference; reading through it later is m_use_str.
-   Result: (status, z).  required = the "s:" form. *)
+   Result: (status, z).  required = the "s:" form.
+   z = json_string_value(json_object_get(o, key)) (the form the zip lookups use since f0a2801) reads the
+   same nodes and yields the same z: it is m_unpack_s true o key, status ignored. *)
 Definition m_unpack_s (required : bool) (o : jptr) (key : bytes) : M (bool * jptr) :=
   match o with
   | None => mret (false, None)
@@ -520,7 +522,8 @@ Section Glue.
          prt = json_object_get(json, "protected");
          if (prt && json_is_string(prt))
              prt = dec = jose_b64_dec_load(prt);
-         if (json_unpack(prt, "{s:s}", "zip", &z) == -1) return false;
+         z = json_string_value(json_object_get(prt, "zip"));
+         if (!z) return false;
          return jose_hook_alg_find(JOSE_HOOK_ALG_KIND_COMP, z) != NULL;                      *)
   Definition own_zip_prefix (json : jptr) : M (jptr * (bool * jptr)) :=
     prt <- m_get json k_protected ;;
@@ -559,7 +562,8 @@ Section Glue.
              prt = jose_b64_dec_load(json_object_get(jwe, "protected"));
              if (!prt) return NULL;
          }
-         if (json_unpack(prt, "{s:s}", "zip", &z) == 0) {
+         z = json_string_value(json_object_get(prt, "zip"));
+         if (z) {
              a = jose_hook_alg_find(JOSE_HOOK_ALG_KIND_COMP, z);  if (!a) return NULL;
              ... (IO part: own_enc_cek_io_chain)
          }
